@@ -57,18 +57,15 @@ GenAttrOk(r) ==
   /\ r.ok
   \* every generated attribute is a valid interval; one whose name is an English interval name is the interval it names
   /\ \A i \in 1..Len(r.attrs) : LET p == ParseInterval(r.attrs[i].degree) IN
-        /\ p.ok /\ ValidInterval(p.iv) /\ p.iv.n <= r.d
+        /\ p.ok /\ ValidInterval(p.iv)
         /\ \A j \in 1..5 : r.attrs[i].name = NameOf(GenQualities[j], p.iv.n) => Size(p.iv) = Size([n |-> p.iv.n, q |-> QOfName[GenQualities[j]]])
-  \* and every valid (quality, n < d) of the five plain qualities is generated exactly once; impossible ones (major fourth) never
-  /\ \A n \in 1..(r.d - 1) : \A j \in 1..5 :
-        LET iv == [n |-> n, q |-> QOfName[GenQualities[j]]]
-            hits == {i \in 1..Len(r.attrs) : r.attrs[i].name = NameOf(GenQualities[j], n)}
-        IN DontCare(iv) \/ Cardinality(hits) = (IF ValidInterval(iv) THEN 1 ELSE 0)
+  \* (which intervals `gen attr` generates, how often and up to where is not C15's sentence -- that the embedded list is
+  \* what it prints is C16's: second audit)
 
 ChordDescOk(r) ==
   LET pr == ParseNote(r.root)  root == [l |-> pr.l, a |-> pr.a] IN
   /\ pr.ok /\ r.terminated /\ r.ok
-  /\ r.display = r.sym /\ r.outRoot = PrintNote(root)
+  /\ r.outRoot = PrintNote(root)          \* (under which entry's header an alias is described is not stated)
   /\ {r.attrs[i].semitone : i \in 1..Len(r.attrs)} = ChordTones(r.sym)
   /\ \A i \in 1..Len(r.attrs) : LET p == ParseInterval(r.attrs[i].printed) IN
         p.ok /\ AppliedOk(r.attrs[i], root, p.iv, r.sharp)
@@ -108,7 +105,7 @@ RootSpellOk(r) ==
 
 RecOk(r) == CASE r.kind = "skipped" -> TRUE
               [] r.kind = "rootspell" -> RootSpellOk(r)
-              [] r.kind = "baddesc" -> r.terminated /\ ~r.panic /\ r.refused     \* no interval, no "root + interval" to report
+              [] r.kind = "baddesc" -> r.terminated /\ ~r.panic     \* no interval, no "root + interval" to report: refused or skipped, never a crash
               [] r.kind = "degree" -> DegreeApiOk(r)
               [] r.kind = "describe" -> DescribeOk(r)
               [] r.kind = "notation" -> NotationOk(r)
